@@ -56,8 +56,15 @@ unsigned num_worker; size_t max_mem; bool decompress; unsigned bs100k = 9; bool 
 struct filespec ispec, ospec;
 void *xmalloc(size_t n) { void *p = malloc(n); ASSUME(p != 0); return p; }
 void info(const char *fmt, ...) { (void)fmt; }
-static bool failed;
-void failf(const struct filespec *f, const char *fmt, ...) { (void)f; (void)fmt; failed = true; CUT(); }
+static bool failed, fail_allowed;
+void failf(const struct filespec *f, const char *fmt, ...)
+{
+  (void)f; (void)fmt; failed = true;
+  /* data errors may end the run only where the sequential order is known: in the parser and in the reorder task;
+     a speculative job must carry its error to do_reorder() instead (C10) */
+  PROP(fail_allowed, "only the parser and the reorder task may end the run with a data error; other tasks defer their status (C10)");
+  CUT();
+}
 static int lock_depth;
 void sched_lock(void) { lock_depth++; if (rg_mode) rely_havoc(); }
 void sched_unlock(void) { if (rg_mode) check_inv(); lock_depth--; }
@@ -167,7 +174,7 @@ static void rely_havoc(void)
   ASSUME(inv_holds());
 }
 
-#define BEGIN_TASK() do { rg_mode = false; token_owner = false; load_state(); rg_mode = true; rely_k = 0; lock_depth = 1; } while (0)
+#define BEGIN_TASK() do { rg_mode = false; token_owner = false; fail_allowed = false; load_state(); rg_mode = true; rely_k = 0; lock_depth = 1; } while (0)
 
 void h_rgx_emit(void)
 {
@@ -187,6 +194,8 @@ void h_rgx_reorder(void)
 {
   LOAD_INPUTS();
   BEGIN_TASK();
+  fail_allowed = true;
+  ospec.fd = (IN.parsing_done & 2) ? -1 : 1;           /* -t or a real output */
   struct head_blk hb; hb.base = pos_of(IN.pos_word[3] % 5u, 0); hb.hdr.crc = 1; hb.hdr.bs100k = 9;
   if (IN.n_order & 1) push(order_q, hb);
   parsing_done = IN.parsing_done & 1;
@@ -197,6 +206,7 @@ void h_rgx_reorder(void)
   if (!setjmp(cut_jmp))
 #endif
   do_reorder();
+  bool bogus_before = false;
   if (written > w0) { gW++; WITNESS("block_written"); } else WITNESS("bogus_block_dropped");
   check_inv();
 }
@@ -205,6 +215,7 @@ void h_rgx_parse(void)
 {
   LOAD_INPUTS();
   BEGIN_TASK();
+  fail_allowed = true;
   ASSUME(gP == 0);
   ASSUME(can_parse());
   WITNESS("parse_enabled");
